@@ -3434,6 +3434,184 @@ let rec annotate here parent = function
 let annotate_fm m =
   { proot = (annotate [] PNone m.root); pctcs = m.ctcs }
 
+type hrel = { hr_owner : nat; hr_min : z; hr_max : z; hr_children : nat list }
+
+type hfeat = { hf_name : char list; hf_parent : nat option;
+               hf_rels : hrel list }
+
+type heap = hfeat list
+
+type hop =
+| HNew of char list * nat option
+| HAddRel of nat * nat * z * z * nat list
+| HDelRel of nat * nat
+| HAddChild of nat * nat * nat
+| HSetParent of nat * nat option
+
+(** val update_nth : nat -> ('a1 -> 'a1) -> 'a1 list -> 'a1 list **)
+
+let rec update_nth n0 g = function
+| [] -> []
+| x :: xs ->
+  (match n0 with
+   | O -> (g x) :: xs
+   | S n' -> x :: (update_nth n' g xs))
+
+(** val remove_nth : nat -> 'a1 list -> 'a1 list **)
+
+let rec remove_nth n0 = function
+| [] -> []
+| x :: xs -> (match n0 with
+              | O -> xs
+              | S n' -> x :: (remove_nth n' xs))
+
+(** val set_parent : nat option -> hfeat -> hfeat **)
+
+let set_parent p x =
+  { hf_name = x.hf_name; hf_parent = p; hf_rels = x.hf_rels }
+
+(** val set_rels : (hrel list -> hrel list) -> hfeat -> hfeat **)
+
+let set_rels g x =
+  { hf_name = x.hf_name; hf_parent = x.hf_parent; hf_rels = (g x.hf_rels) }
+
+(** val add_child_rel : nat -> hrel -> hrel **)
+
+let add_child_rel c r =
+  { hr_owner = r.hr_owner; hr_min = r.hr_min; hr_max = r.hr_max;
+    hr_children = (app r.hr_children (c :: [])) }
+
+(** val step : heap -> hop -> heap **)
+
+let step h = function
+| HNew (name0, parent) ->
+  app h ({ hf_name = name0; hf_parent = parent; hf_rels = [] } :: [])
+| HAddRel (f, rp, mn, mx, cs) ->
+  if Nat.ltb f (length h)
+  then fold_left (fun h' c -> update_nth c (set_parent (Some f)) h') cs
+         (update_nth f
+           (set_rels (fun rs ->
+             app rs ({ hr_owner = rp; hr_min = mn; hr_max = mx; hr_children =
+               cs } :: []))) h)
+  else h
+| HDelRel (f, k) -> update_nth f (set_rels (remove_nth k)) h
+| HAddChild (f, k, c) ->
+  update_nth f (set_rels (update_nth k (add_child_rel c))) h
+| HSetParent (c, p) -> update_nth c (set_parent p) h
+
+(** val run : heap -> hop list -> heap **)
+
+let run h ops =
+  fold_left step ops h
+
+(** val h_name : heap -> nat -> char list **)
+
+let h_name h i =
+  match nth_error h i with
+  | Some x -> x.hf_name
+  | None -> []
+
+(** val h_parent : heap -> nat -> nat option **)
+
+let h_parent h i =
+  match nth_error h i with
+  | Some x -> x.hf_parent
+  | None -> None
+
+(** val h_rels : heap -> nat -> hrel list **)
+
+let h_rels h i =
+  match nth_error h i with
+  | Some x -> x.hf_rels
+  | None -> []
+
+(** val h_children : heap -> nat -> nat list **)
+
+let h_children h i =
+  flat_map (fun h0 -> h0.hr_children) (h_rels h i)
+
+(** val h_is_root : heap -> nat -> bool **)
+
+let h_is_root h i =
+  match h_parent h i with
+  | Some _ -> false
+  | None -> true
+
+(** val h_is_leaf : heap -> nat -> bool **)
+
+let h_is_leaf h i =
+  match h_rels h i with
+  | [] -> true
+  | _ :: _ -> false
+
+(** val hrel_is_mandatory : hrel -> bool **)
+
+let hrel_is_mandatory r =
+  (&&) ((&&) (Z.eqb r.hr_min (Zpos XH)) (Z.eqb r.hr_max (Zpos XH)))
+    (Nat.eqb (length r.hr_children) (S O))
+
+(** val hrel_is_optional : hrel -> bool **)
+
+let hrel_is_optional r =
+  (&&) ((&&) (Z.eqb r.hr_min Z0) (Z.eqb r.hr_max (Zpos XH)))
+    (Nat.eqb (length r.hr_children) (S O))
+
+(** val named_in : heap -> nat -> hrel -> bool **)
+
+let named_in h c r =
+  existsb (fun d -> eqb0 (h_name h d) (h_name h c)) r.hr_children
+
+(** val h_is_kind : (hrel -> bool) -> heap -> nat -> bool **)
+
+let h_is_kind kind h c =
+  match h_parent h c with
+  | Some p -> existsb (fun r -> (&&) (kind r) (named_in h c r)) (h_rels h p)
+  | None -> false
+
+(** val h_is_mandatory : heap -> nat -> bool **)
+
+let h_is_mandatory =
+  h_is_kind hrel_is_mandatory
+
+(** val h_is_optional : heap -> nat -> bool **)
+
+let h_is_optional =
+  h_is_kind hrel_is_optional
+
+(** val occurs : heap -> nat -> bool **)
+
+let occurs h c =
+  existsb (fun x ->
+    existsb (fun r -> existsb (Nat.eqb c) r.hr_children) x.hf_rels) h
+
+(** val nodupb_nat : nat list -> bool **)
+
+let rec nodupb_nat = function
+| [] -> true
+| x :: xs -> (&&) (negb (existsb (Nat.eqb x) xs)) (nodupb_nat xs)
+
+(** val guard : heap -> hop -> bool **)
+
+let guard h = function
+| HAddRel (f, rp, _, _, cs) ->
+  (&&)
+    ((&&) ((&&) (Nat.ltb f (length h)) (Nat.eqb rp f))
+      (forallb (fun c -> (&&) (Nat.ltb c (length h)) (negb (occurs h c))) cs))
+    (nodupb_nat cs)
+| HAddChild (f, _, c) ->
+  (&&) ((&&) (Nat.ltb c (length h)) (negb (occurs h c)))
+    (match h_parent h c with
+     | Some p -> Nat.eqb p f
+     | None -> false)
+| HSetParent (c, _) -> negb (occurs h c)
+| _ -> true
+
+(** val guards : heap -> hop list -> bool **)
+
+let rec guards h = function
+| [] -> true
+| o :: rest -> (&&) (guard h o) (guards (step h o) rest)
+
 (** val jt_FEATURE : char list **)
 
 let jt_FEATURE =
@@ -3743,26 +3921,29 @@ let rec json_parse_tree fuel here parent node0 =
                                                | Err e -> Err e)
                                             in goc O chl with
                                       | Ok children0 ->
-                                        (match jget
-                                                 ('t'::('y'::('p'::('e'::[]))))
-                                                 rel with
-                                         | Ok tv ->
-                                           (match jstr tv with
-                                            | Ok rtype ->
-                                              (match json_relation_cards
-                                                       rtype rel
-                                                       (length children0) with
-                                               | Ok a0 ->
-                                                 let (a, b) = a0 in
-                                                 (match go (S k) rest with
-                                                  | Ok prs ->
-                                                    Ok ((PRelation ((PPath
-                                                      here), a, b,
-                                                      children0)) :: prs)
+                                        (match children0 with
+                                         | [] -> Err ParsingException
+                                         | _ :: _ ->
+                                           (match jget
+                                                    ('t'::('y'::('p'::('e'::[]))))
+                                                    rel with
+                                            | Ok tv ->
+                                              (match jstr tv with
+                                               | Ok rtype ->
+                                                 (match json_relation_cards
+                                                          rtype rel
+                                                          (length children0) with
+                                                  | Ok a0 ->
+                                                    let (a, b) = a0 in
+                                                    (match go (S k) rest with
+                                                     | Ok prs ->
+                                                       Ok ((PRelation ((PPath
+                                                         here), a, b,
+                                                         children0)) :: prs)
+                                                     | Err e -> Err e)
                                                   | Err e -> Err e)
                                                | Err e -> Err e)
-                                            | Err e -> Err e)
-                                         | Err e -> Err e)
+                                            | Err e -> Err e))
                                       | Err e -> Err e)
                                    | Err e -> Err e)
                                 | Err e -> Err e)
@@ -4907,12 +5088,15 @@ let rec fama_parse_feature el here parent seen =
                           let (p, seen') = a0 in
                           let (p0, b) = p in
                           let (cs, a) = p0 in
-                          (match go (S k) rest seen' with
-                           | Ok a1 ->
-                             let (prs, s3) = a1 in
-                             Ok (((PRelation ((PPath here), a, b,
-                             cs)) :: prs), s3)
-                           | Err e -> Err e)
+                          (match cs with
+                           | [] -> Err FlamaException
+                           | _ :: _ ->
+                             (match go (S k) rest seen' with
+                              | Ok a1 ->
+                                let (prs, s3) = a1 in
+                                Ok (((PRelation ((PPath here), a, b,
+                                cs)) :: prs), s3)
+                              | Err e -> Err e))
                         | Err e -> Err e)
                   else go k rest seen0
               in go O kids (nm :: seen) with
@@ -11157,6 +11341,1379 @@ let d_adoc = function
       | _ -> None))
 | _ -> None
 
+(** val d_optnat : sexp -> nat option option **)
+
+let d_optnat s = match s with
+| SAtom s0 ->
+  (match s0 with
+   | [] -> (match d_nat s with
+            | Some n0 -> Some (Some n0)
+            | None -> None)
+   | a::s1 ->
+     (* If this appears, you're using Ascii internals. Please don't *)
+ (fun f c ->
+  let n = Char.code c in
+  let h i = (n land (1 lsl i)) <> 0 in
+  f (h 0) (h 1) (h 2) (h 3) (h 4) (h 5) (h 6) (h 7))
+       (fun b b0 b1 b2 b3 b4 b5 b6 ->
+       if b
+       then (match d_nat s with
+             | Some n0 -> Some (Some n0)
+             | None -> None)
+       else if b0
+            then if b1
+                 then if b2
+                      then if b3
+                           then (match d_nat s with
+                                 | Some n0 -> Some (Some n0)
+                                 | None -> None)
+                           else if b4
+                                then if b5
+                                     then if b6
+                                          then (match d_nat s with
+                                                | Some n0 -> Some (Some n0)
+                                                | None -> None)
+                                          else (match s1 with
+                                                | [] ->
+                                                  (match d_nat s with
+                                                   | Some n0 -> Some (Some n0)
+                                                   | None -> None)
+                                                | a0::s2 ->
+                                                  (* If this appears, you're using Ascii internals. Please don't *)
+ (fun f c ->
+  let n = Char.code c in
+  let h i = (n land (1 lsl i)) <> 0 in
+  f (h 0) (h 1) (h 2) (h 3) (h 4) (h 5) (h 6) (h 7))
+                                                    (fun b7 b8 b9 b10 b11 b12 b13 b14 ->
+                                                    if b7
+                                                    then if b8
+                                                         then (match 
+                                                               d_nat s with
+                                                               | Some n0 ->
+                                                                 Some (Some
+                                                                   n0)
+                                                               | None -> None)
+                                                         else if b9
+                                                              then (match 
+                                                                    d_nat s with
+                                                                    | Some n0 ->
+                                                                    Some
+                                                                    (Some n0)
+                                                                    | None ->
+                                                                    None)
+                                                              else if b10
+                                                                   then 
+                                                                    if b11
+                                                                    then 
+                                                                    (match 
+                                                                    d_nat s with
+                                                                    | Some n0 ->
+                                                                    Some
+                                                                    (Some n0)
+                                                                    | None ->
+                                                                    None)
+                                                                    else 
+                                                                    if b12
+                                                                    then 
+                                                                    if b13
+                                                                    then 
+                                                                    if b14
+                                                                    then 
+                                                                    (match 
+                                                                    d_nat s with
+                                                                    | Some n0 ->
+                                                                    Some
+                                                                    (Some n0)
+                                                                    | None ->
+                                                                    None)
+                                                                    else 
+                                                                    (match s2 with
+                                                                    | [] ->
+                                                                    (match 
+                                                                    d_nat s with
+                                                                    | Some n0 ->
+                                                                    Some
+                                                                    (Some n0)
+                                                                    | None ->
+                                                                    None)
+                                                                    | a1::s3 ->
+                                                                    (* If this appears, you're using Ascii internals. Please don't *)
+ (fun f c ->
+  let n = Char.code c in
+  let h i = (n land (1 lsl i)) <> 0 in
+  f (h 0) (h 1) (h 2) (h 3) (h 4) (h 5) (h 6) (h 7))
+                                                                    (fun b15 b16 b17 b18 b19 b20 b21 b22 ->
+                                                                    if b15
+                                                                    then 
+                                                                    (match 
+                                                                    d_nat s with
+                                                                    | Some n0 ->
+                                                                    Some
+                                                                    (Some n0)
+                                                                    | None ->
+                                                                    None)
+                                                                    else 
+                                                                    if b16
+                                                                    then 
+                                                                    (match 
+                                                                    d_nat s with
+                                                                    | Some n0 ->
+                                                                    Some
+                                                                    (Some n0)
+                                                                    | None ->
+                                                                    None)
+                                                                    else 
+                                                                    if b17
+                                                                    then 
+                                                                    if b18
+                                                                    then 
+                                                                    if b19
+                                                                    then 
+                                                                    (match 
+                                                                    d_nat s with
+                                                                    | Some n0 ->
+                                                                    Some
+                                                                    (Some n0)
+                                                                    | None ->
+                                                                    None)
+                                                                    else 
+                                                                    if b20
+                                                                    then 
+                                                                    if b21
+                                                                    then 
+                                                                    if b22
+                                                                    then 
+                                                                    (match 
+                                                                    d_nat s with
+                                                                    | Some n0 ->
+                                                                    Some
+                                                                    (Some n0)
+                                                                    | None ->
+                                                                    None)
+                                                                    else 
+                                                                    (match s3 with
+                                                                    | [] ->
+                                                                    Some None
+                                                                    | _::_ ->
+                                                                    (match 
+                                                                    d_nat s with
+                                                                    | Some n0 ->
+                                                                    Some
+                                                                    (Some n0)
+                                                                    | None ->
+                                                                    None))
+                                                                    else 
+                                                                    (match 
+                                                                    d_nat s with
+                                                                    | Some n0 ->
+                                                                    Some
+                                                                    (Some n0)
+                                                                    | None ->
+                                                                    None)
+                                                                    else 
+                                                                    (match 
+                                                                    d_nat s with
+                                                                    | Some n0 ->
+                                                                    Some
+                                                                    (Some n0)
+                                                                    | None ->
+                                                                    None)
+                                                                    else 
+                                                                    (match 
+                                                                    d_nat s with
+                                                                    | Some n0 ->
+                                                                    Some
+                                                                    (Some n0)
+                                                                    | None ->
+                                                                    None)
+                                                                    else 
+                                                                    (match 
+                                                                    d_nat s with
+                                                                    | Some n0 ->
+                                                                    Some
+                                                                    (Some n0)
+                                                                    | None ->
+                                                                    None))
+                                                                    a1)
+                                                                    else 
+                                                                    (match 
+                                                                    d_nat s with
+                                                                    | Some n0 ->
+                                                                    Some
+                                                                    (Some n0)
+                                                                    | None ->
+                                                                    None)
+                                                                    else 
+                                                                    (match 
+                                                                    d_nat s with
+                                                                    | Some n0 ->
+                                                                    Some
+                                                                    (Some n0)
+                                                                    | None ->
+                                                                    None)
+                                                                   else 
+                                                                    (match 
+                                                                    d_nat s with
+                                                                    | Some n0 ->
+                                                                    Some
+                                                                    (Some n0)
+                                                                    | None ->
+                                                                    None)
+                                                    else (match d_nat s with
+                                                          | Some n0 ->
+                                                            Some (Some n0)
+                                                          | None -> None))
+                                                    a0)
+                                     else (match d_nat s with
+                                           | Some n0 -> Some (Some n0)
+                                           | None -> None)
+                                else (match d_nat s with
+                                      | Some n0 -> Some (Some n0)
+                                      | None -> None)
+                      else (match d_nat s with
+                            | Some n0 -> Some (Some n0)
+                            | None -> None)
+                 else (match d_nat s with
+                       | Some n0 -> Some (Some n0)
+                       | None -> None)
+            else (match d_nat s with
+                  | Some n0 -> Some (Some n0)
+                  | None -> None))
+       a)
+| _ -> (match d_nat s with
+        | Some n0 -> Some (Some n0)
+        | None -> None)
+
+(** val d_hop : sexp -> hop option **)
+
+let d_hop = function
+| SList l ->
+  (match l with
+   | [] -> None
+   | s0 :: l0 ->
+     (match s0 with
+      | SAtom s1 ->
+        (match s1 with
+         | [] -> None
+         | a::s2 ->
+           (* If this appears, you're using Ascii internals. Please don't *)
+ (fun f c ->
+  let n = Char.code c in
+  let h i = (n land (1 lsl i)) <> 0 in
+  f (h 0) (h 1) (h 2) (h 3) (h 4) (h 5) (h 6) (h 7))
+             (fun b b0 b1 b2 b3 b4 b5 b6 ->
+             if b
+             then if b0
+                  then if b1
+                       then None
+                       else if b2
+                            then None
+                            else if b3
+                                 then if b4
+                                      then if b5
+                                           then if b6
+                                                then None
+                                                else (match s2 with
+                                                      | [] -> None
+                                                      | a0::s3 ->
+                                                        (* If this appears, you're using Ascii internals. Please don't *)
+ (fun f c ->
+  let n = Char.code c in
+  let h i = (n land (1 lsl i)) <> 0 in
+  f (h 0) (h 1) (h 2) (h 3) (h 4) (h 5) (h 6) (h 7))
+                                                          (fun b7 b8 b9 b10 b11 b12 b13 b14 ->
+                                                          if b7
+                                                          then if b8
+                                                               then None
+                                                               else if b9
+                                                                    then 
+                                                                    if b10
+                                                                    then None
+                                                                    else 
+                                                                    if b11
+                                                                    then None
+                                                                    else 
+                                                                    if b12
+                                                                    then 
+                                                                    if b13
+                                                                    then 
+                                                                    if b14
+                                                                    then None
+                                                                    else 
+                                                                    (match s3 with
+                                                                    | [] ->
+                                                                    None
+                                                                    | a1::s4 ->
+                                                                    (* If this appears, you're using Ascii internals. Please don't *)
+ (fun f c ->
+  let n = Char.code c in
+  let h i = (n land (1 lsl i)) <> 0 in
+  f (h 0) (h 1) (h 2) (h 3) (h 4) (h 5) (h 6) (h 7))
+                                                                    (fun b15 b16 b17 b18 b19 b20 b21 b22 ->
+                                                                    if b15
+                                                                    then None
+                                                                    else 
+                                                                    if b16
+                                                                    then None
+                                                                    else 
+                                                                    if b17
+                                                                    then 
+                                                                    if b18
+                                                                    then None
+                                                                    else 
+                                                                    if b19
+                                                                    then 
+                                                                    if b20
+                                                                    then 
+                                                                    if b21
+                                                                    then 
+                                                                    if b22
+                                                                    then None
+                                                                    else 
+                                                                    (match s4 with
+                                                                    | [] ->
+                                                                    None
+                                                                    | a2::s5 ->
+                                                                    (* If this appears, you're using Ascii internals. Please don't *)
+ (fun f c ->
+  let n = Char.code c in
+  let h i = (n land (1 lsl i)) <> 0 in
+  f (h 0) (h 1) (h 2) (h 3) (h 4) (h 5) (h 6) (h 7))
+                                                                    (fun b23 b24 b25 b26 b27 b28 b29 b30 ->
+                                                                    if b23
+                                                                    then None
+                                                                    else 
+                                                                    if b24
+                                                                    then None
+                                                                    else 
+                                                                    if b25
+                                                                    then None
+                                                                    else 
+                                                                    if b26
+                                                                    then None
+                                                                    else 
+                                                                    if b27
+                                                                    then 
+                                                                    if b28
+                                                                    then 
+                                                                    if b29
+                                                                    then 
+                                                                    if b30
+                                                                    then None
+                                                                    else 
+                                                                    (match s5 with
+                                                                    | [] ->
+                                                                    None
+                                                                    | a3::s6 ->
+                                                                    (* If this appears, you're using Ascii internals. Please don't *)
+ (fun f c ->
+  let n = Char.code c in
+  let h i = (n land (1 lsl i)) <> 0 in
+  f (h 0) (h 1) (h 2) (h 3) (h 4) (h 5) (h 6) (h 7))
+                                                                    (fun b31 b32 b33 b34 b35 b36 b37 b38 ->
+                                                                    if b31
+                                                                    then 
+                                                                    if b32
+                                                                    then None
+                                                                    else 
+                                                                    if b33
+                                                                    then None
+                                                                    else 
+                                                                    if b34
+                                                                    then None
+                                                                    else 
+                                                                    if b35
+                                                                    then None
+                                                                    else 
+                                                                    if b36
+                                                                    then 
+                                                                    if b37
+                                                                    then 
+                                                                    if b38
+                                                                    then None
+                                                                    else 
+                                                                    (match s6 with
+                                                                    | [] ->
+                                                                    None
+                                                                    | a4::s7 ->
+                                                                    (* If this appears, you're using Ascii internals. Please don't *)
+ (fun f c ->
+  let n = Char.code c in
+  let h i = (n land (1 lsl i)) <> 0 in
+  f (h 0) (h 1) (h 2) (h 3) (h 4) (h 5) (h 6) (h 7))
+                                                                    (fun b39 b40 b41 b42 b43 b44 b45 b46 ->
+                                                                    if b39
+                                                                    then None
+                                                                    else 
+                                                                    if b40
+                                                                    then 
+                                                                    if b41
+                                                                    then None
+                                                                    else 
+                                                                    if b42
+                                                                    then None
+                                                                    else 
+                                                                    if b43
+                                                                    then 
+                                                                    if b44
+                                                                    then 
+                                                                    if b45
+                                                                    then 
+                                                                    if b46
+                                                                    then None
+                                                                    else 
+                                                                    (match s7 with
+                                                                    | [] ->
+                                                                    None
+                                                                    | a5::s8 ->
+                                                                    (* If this appears, you're using Ascii internals. Please don't *)
+ (fun f c ->
+  let n = Char.code c in
+  let h i = (n land (1 lsl i)) <> 0 in
+  f (h 0) (h 1) (h 2) (h 3) (h 4) (h 5) (h 6) (h 7))
+                                                                    (fun b47 b48 b49 b50 b51 b52 b53 b54 ->
+                                                                    if b47
+                                                                    then 
+                                                                    if b48
+                                                                    then None
+                                                                    else 
+                                                                    if b49
+                                                                    then 
+                                                                    if b50
+                                                                    then None
+                                                                    else 
+                                                                    if b51
+                                                                    then None
+                                                                    else 
+                                                                    if b52
+                                                                    then 
+                                                                    if b53
+                                                                    then 
+                                                                    if b54
+                                                                    then None
+                                                                    else 
+                                                                    (match s8 with
+                                                                    | [] ->
+                                                                    None
+                                                                    | a6::s9 ->
+                                                                    (* If this appears, you're using Ascii internals. Please don't *)
+ (fun f c ->
+  let n = Char.code c in
+  let h i = (n land (1 lsl i)) <> 0 in
+  f (h 0) (h 1) (h 2) (h 3) (h 4) (h 5) (h 6) (h 7))
+                                                                    (fun b55 b56 b57 b58 b59 b60 b61 b62 ->
+                                                                    if b55
+                                                                    then None
+                                                                    else 
+                                                                    if b56
+                                                                    then 
+                                                                    if b57
+                                                                    then 
+                                                                    if b58
+                                                                    then 
+                                                                    if b59
+                                                                    then None
+                                                                    else 
+                                                                    if b60
+                                                                    then 
+                                                                    if b61
+                                                                    then 
+                                                                    if b62
+                                                                    then None
+                                                                    else 
+                                                                    (match s9 with
+                                                                    | [] ->
+                                                                    None
+                                                                    | a7::s10 ->
+                                                                    (* If this appears, you're using Ascii internals. Please don't *)
+ (fun f c ->
+  let n = Char.code c in
+  let h i = (n land (1 lsl i)) <> 0 in
+  f (h 0) (h 1) (h 2) (h 3) (h 4) (h 5) (h 6) (h 7))
+                                                                    (fun b63 b64 b65 b66 b67 b68 b69 b70 ->
+                                                                    if b63
+                                                                    then None
+                                                                    else 
+                                                                    if b64
+                                                                    then None
+                                                                    else 
+                                                                    if b65
+                                                                    then 
+                                                                    if b66
+                                                                    then None
+                                                                    else 
+                                                                    if b67
+                                                                    then 
+                                                                    if b68
+                                                                    then 
+                                                                    if b69
+                                                                    then 
+                                                                    if b70
+                                                                    then None
+                                                                    else 
+                                                                    (match s10 with
+                                                                    | [] ->
+                                                                    (match l0 with
+                                                                    | [] ->
+                                                                    None
+                                                                    | c :: l1 ->
+                                                                    (match l1 with
+                                                                    | [] ->
+                                                                    None
+                                                                    | p :: l2 ->
+                                                                    (match l2 with
+                                                                    | [] ->
+                                                                    (match 
+                                                                    d_nat c with
+                                                                    | Some c' ->
+                                                                    (match 
+                                                                    d_optnat p with
+                                                                    | Some p' ->
+                                                                    Some
+                                                                    (HSetParent
+                                                                    (c', p'))
+                                                                    | None ->
+                                                                    None)
+                                                                    | None ->
+                                                                    None)
+                                                                    | _ :: _ ->
+                                                                    None)))
+                                                                    | _::_ ->
+                                                                    None)
+                                                                    else None
+                                                                    else None
+                                                                    else None
+                                                                    else None)
+                                                                    a7)
+                                                                    else None
+                                                                    else None
+                                                                    else None
+                                                                    else None
+                                                                    else None)
+                                                                    a6)
+                                                                    else None
+                                                                    else None
+                                                                    else None
+                                                                    else None)
+                                                                    a5)
+                                                                    else None
+                                                                    else None
+                                                                    else None
+                                                                    else None)
+                                                                    a4)
+                                                                    else None
+                                                                    else None
+                                                                    else None)
+                                                                    a3)
+                                                                    else None
+                                                                    else None
+                                                                    else None)
+                                                                    a2)
+                                                                    else None
+                                                                    else None
+                                                                    else None
+                                                                    else None)
+                                                                    a1)
+                                                                    else None
+                                                                    else None
+                                                                    else None
+                                                          else None)
+                                                          a0)
+                                           else None
+                                      else None
+                                 else None
+                  else if b1
+                       then None
+                       else if b2
+                            then None
+                            else if b3
+                                 then None
+                                 else if b4
+                                      then if b5
+                                           then if b6
+                                                then None
+                                                else (match s2 with
+                                                      | [] -> None
+                                                      | a0::s3 ->
+                                                        (* If this appears, you're using Ascii internals. Please don't *)
+ (fun f c ->
+  let n = Char.code c in
+  let h i = (n land (1 lsl i)) <> 0 in
+  f (h 0) (h 1) (h 2) (h 3) (h 4) (h 5) (h 6) (h 7))
+                                                          (fun b7 b8 b9 b10 b11 b12 b13 b14 ->
+                                                          if b7
+                                                          then None
+                                                          else if b8
+                                                               then None
+                                                               else if b9
+                                                                    then 
+                                                                    if b10
+                                                                    then None
+                                                                    else 
+                                                                    if b11
+                                                                    then None
+                                                                    else 
+                                                                    if b12
+                                                                    then 
+                                                                    if b13
+                                                                    then 
+                                                                    if b14
+                                                                    then None
+                                                                    else 
+                                                                    (match s3 with
+                                                                    | [] ->
+                                                                    None
+                                                                    | a1::s4 ->
+                                                                    (* If this appears, you're using Ascii internals. Please don't *)
+ (fun f c ->
+  let n = Char.code c in
+  let h i = (n land (1 lsl i)) <> 0 in
+  f (h 0) (h 1) (h 2) (h 3) (h 4) (h 5) (h 6) (h 7))
+                                                                    (fun b15 b16 b17 b18 b19 b20 b21 b22 ->
+                                                                    if b15
+                                                                    then None
+                                                                    else 
+                                                                    if b16
+                                                                    then None
+                                                                    else 
+                                                                    if b17
+                                                                    then 
+                                                                    if b18
+                                                                    then None
+                                                                    else 
+                                                                    if b19
+                                                                    then None
+                                                                    else 
+                                                                    if b20
+                                                                    then 
+                                                                    if b21
+                                                                    then 
+                                                                    if b22
+                                                                    then None
+                                                                    else 
+                                                                    (match s4 with
+                                                                    | [] ->
+                                                                    None
+                                                                    | a2::s5 ->
+                                                                    (* If this appears, you're using Ascii internals. Please don't *)
+ (fun f c ->
+  let n = Char.code c in
+  let h i = (n land (1 lsl i)) <> 0 in
+  f (h 0) (h 1) (h 2) (h 3) (h 4) (h 5) (h 6) (h 7))
+                                                                    (fun b23 b24 b25 b26 b27 b28 b29 b30 ->
+                                                                    if b23
+                                                                    then 
+                                                                    if b24
+                                                                    then 
+                                                                    if b25
+                                                                    then None
+                                                                    else 
+                                                                    if b26
+                                                                    then None
+                                                                    else 
+                                                                    if b27
+                                                                    then None
+                                                                    else 
+                                                                    if b28
+                                                                    then 
+                                                                    if b29
+                                                                    then 
+                                                                    if b30
+                                                                    then None
+                                                                    else 
+                                                                    (match s5 with
+                                                                    | [] ->
+                                                                    None
+                                                                    | a3::s6 ->
+                                                                    (* If this appears, you're using Ascii internals. Please don't *)
+ (fun f c ->
+  let n = Char.code c in
+  let h i = (n land (1 lsl i)) <> 0 in
+  f (h 0) (h 1) (h 2) (h 3) (h 4) (h 5) (h 6) (h 7))
+                                                                    (fun b31 b32 b33 b34 b35 b36 b37 b38 ->
+                                                                    if b31
+                                                                    then None
+                                                                    else 
+                                                                    if b32
+                                                                    then None
+                                                                    else 
+                                                                    if b33
+                                                                    then None
+                                                                    else 
+                                                                    if b34
+                                                                    then 
+                                                                    if b35
+                                                                    then None
+                                                                    else 
+                                                                    if b36
+                                                                    then 
+                                                                    if b37
+                                                                    then 
+                                                                    if b38
+                                                                    then None
+                                                                    else 
+                                                                    (match s6 with
+                                                                    | [] ->
+                                                                    None
+                                                                    | a4::s7 ->
+                                                                    (* If this appears, you're using Ascii internals. Please don't *)
+ (fun f c ->
+  let n = Char.code c in
+  let h i = (n land (1 lsl i)) <> 0 in
+  f (h 0) (h 1) (h 2) (h 3) (h 4) (h 5) (h 6) (h 7))
+                                                                    (fun b39 b40 b41 b42 b43 b44 b45 b46 ->
+                                                                    if b39
+                                                                    then 
+                                                                    if b40
+                                                                    then None
+                                                                    else 
+                                                                    if b41
+                                                                    then None
+                                                                    else 
+                                                                    if b42
+                                                                    then 
+                                                                    if b43
+                                                                    then None
+                                                                    else 
+                                                                    if b44
+                                                                    then 
+                                                                    if b45
+                                                                    then 
+                                                                    if b46
+                                                                    then None
+                                                                    else 
+                                                                    (match s7 with
+                                                                    | [] ->
+                                                                    None
+                                                                    | a5::s8 ->
+                                                                    (* If this appears, you're using Ascii internals. Please don't *)
+ (fun f c ->
+  let n = Char.code c in
+  let h i = (n land (1 lsl i)) <> 0 in
+  f (h 0) (h 1) (h 2) (h 3) (h 4) (h 5) (h 6) (h 7))
+                                                                    (fun b47 b48 b49 b50 b51 b52 b53 b54 ->
+                                                                    if b47
+                                                                    then None
+                                                                    else 
+                                                                    if b48
+                                                                    then None
+                                                                    else 
+                                                                    if b49
+                                                                    then 
+                                                                    if b50
+                                                                    then 
+                                                                    if b51
+                                                                    then None
+                                                                    else 
+                                                                    if b52
+                                                                    then 
+                                                                    if b53
+                                                                    then 
+                                                                    if b54
+                                                                    then None
+                                                                    else 
+                                                                    (match s8 with
+                                                                    | [] ->
+                                                                    None
+                                                                    | a6::s9 ->
+                                                                    (* If this appears, you're using Ascii internals. Please don't *)
+ (fun f c ->
+  let n = Char.code c in
+  let h i = (n land (1 lsl i)) <> 0 in
+  f (h 0) (h 1) (h 2) (h 3) (h 4) (h 5) (h 6) (h 7))
+                                                                    (fun b55 b56 b57 b58 b59 b60 b61 b62 ->
+                                                                    if b55
+                                                                    then None
+                                                                    else 
+                                                                    if b56
+                                                                    then None
+                                                                    else 
+                                                                    if b57
+                                                                    then 
+                                                                    if b58
+                                                                    then None
+                                                                    else 
+                                                                    if b59
+                                                                    then None
+                                                                    else 
+                                                                    if b60
+                                                                    then 
+                                                                    if b61
+                                                                    then 
+                                                                    if b62
+                                                                    then None
+                                                                    else 
+                                                                    (match s9 with
+                                                                    | [] ->
+                                                                    (match l0 with
+                                                                    | [] ->
+                                                                    None
+                                                                    | f :: l1 ->
+                                                                    (match l1 with
+                                                                    | [] ->
+                                                                    None
+                                                                    | k :: l2 ->
+                                                                    (match l2 with
+                                                                    | [] ->
+                                                                    None
+                                                                    | c :: l3 ->
+                                                                    (match l3 with
+                                                                    | [] ->
+                                                                    (match 
+                                                                    d_nat f with
+                                                                    | Some f' ->
+                                                                    (match 
+                                                                    d_nat k with
+                                                                    | Some k' ->
+                                                                    (match 
+                                                                    d_nat c with
+                                                                    | Some c' ->
+                                                                    Some
+                                                                    (HAddChild
+                                                                    (f', k',
+                                                                    c'))
+                                                                    | None ->
+                                                                    None)
+                                                                    | None ->
+                                                                    None)
+                                                                    | None ->
+                                                                    None)
+                                                                    | _ :: _ ->
+                                                                    None))))
+                                                                    | _::_ ->
+                                                                    None)
+                                                                    else None
+                                                                    else None
+                                                                    else None)
+                                                                    a6)
+                                                                    else None
+                                                                    else None
+                                                                    else None
+                                                                    else None)
+                                                                    a5)
+                                                                    else None
+                                                                    else None
+                                                                    else None
+                                                                    else None)
+                                                                    a4)
+                                                                    else None
+                                                                    else None
+                                                                    else None)
+                                                                    a3)
+                                                                    else None
+                                                                    else None
+                                                                    else None
+                                                                    else 
+                                                                    if b24
+                                                                    then 
+                                                                    if b25
+                                                                    then None
+                                                                    else 
+                                                                    if b26
+                                                                    then None
+                                                                    else 
+                                                                    if b27
+                                                                    then 
+                                                                    if b28
+                                                                    then 
+                                                                    if b29
+                                                                    then 
+                                                                    if b30
+                                                                    then None
+                                                                    else 
+                                                                    (match s5 with
+                                                                    | [] ->
+                                                                    None
+                                                                    | a3::s6 ->
+                                                                    (* If this appears, you're using Ascii internals. Please don't *)
+ (fun f c ->
+  let n = Char.code c in
+  let h i = (n land (1 lsl i)) <> 0 in
+  f (h 0) (h 1) (h 2) (h 3) (h 4) (h 5) (h 6) (h 7))
+                                                                    (fun b31 b32 b33 b34 b35 b36 b37 b38 ->
+                                                                    if b31
+                                                                    then 
+                                                                    if b32
+                                                                    then None
+                                                                    else 
+                                                                    if b33
+                                                                    then 
+                                                                    if b34
+                                                                    then None
+                                                                    else 
+                                                                    if b35
+                                                                    then None
+                                                                    else 
+                                                                    if b36
+                                                                    then 
+                                                                    if b37
+                                                                    then 
+                                                                    if b38
+                                                                    then None
+                                                                    else 
+                                                                    (match s6 with
+                                                                    | [] ->
+                                                                    None
+                                                                    | a4::s7 ->
+                                                                    (* If this appears, you're using Ascii internals. Please don't *)
+ (fun f c ->
+  let n = Char.code c in
+  let h i = (n land (1 lsl i)) <> 0 in
+  f (h 0) (h 1) (h 2) (h 3) (h 4) (h 5) (h 6) (h 7))
+                                                                    (fun b39 b40 b41 b42 b43 b44 b45 b46 ->
+                                                                    if b39
+                                                                    then None
+                                                                    else 
+                                                                    if b40
+                                                                    then None
+                                                                    else 
+                                                                    if b41
+                                                                    then 
+                                                                    if b42
+                                                                    then 
+                                                                    if b43
+                                                                    then None
+                                                                    else 
+                                                                    if b44
+                                                                    then 
+                                                                    if b45
+                                                                    then 
+                                                                    if b46
+                                                                    then None
+                                                                    else 
+                                                                    (match s7 with
+                                                                    | [] ->
+                                                                    (match l0 with
+                                                                    | [] ->
+                                                                    None
+                                                                    | f :: l1 ->
+                                                                    (match l1 with
+                                                                    | [] ->
+                                                                    None
+                                                                    | rp :: l2 ->
+                                                                    (match l2 with
+                                                                    | [] ->
+                                                                    None
+                                                                    | mn :: l3 ->
+                                                                    (match l3 with
+                                                                    | [] ->
+                                                                    None
+                                                                    | mx :: l4 ->
+                                                                    (match l4 with
+                                                                    | [] ->
+                                                                    None
+                                                                    | s8 :: l5 ->
+                                                                    (match s8 with
+                                                                    | SList cs ->
+                                                                    (match l5 with
+                                                                    | [] ->
+                                                                    (match 
+                                                                    d_nat f with
+                                                                    | Some f' ->
+                                                                    (match 
+                                                                    d_nat rp with
+                                                                    | Some rp' ->
+                                                                    (match 
+                                                                    d_z mn with
+                                                                    | Some a5 ->
+                                                                    (match 
+                                                                    d_z mx with
+                                                                    | Some b47 ->
+                                                                    (match 
+                                                                    omap
+                                                                    d_nat cs with
+                                                                    | Some cs' ->
+                                                                    Some
+                                                                    (HAddRel
+                                                                    (f', rp',
+                                                                    a5, b47,
+                                                                    cs'))
+                                                                    | None ->
+                                                                    None)
+                                                                    | None ->
+                                                                    None)
+                                                                    | None ->
+                                                                    None)
+                                                                    | None ->
+                                                                    None)
+                                                                    | None ->
+                                                                    None)
+                                                                    | _ :: _ ->
+                                                                    None)
+                                                                    | _ ->
+                                                                    None))))))
+                                                                    | _::_ ->
+                                                                    None)
+                                                                    else None
+                                                                    else None
+                                                                    else None
+                                                                    else None)
+                                                                    a4)
+                                                                    else None
+                                                                    else None
+                                                                    else None
+                                                                    else None)
+                                                                    a3)
+                                                                    else None
+                                                                    else None
+                                                                    else None
+                                                                    else None)
+                                                                    a2)
+                                                                    else None
+                                                                    else None
+                                                                    else None)
+                                                                    a1)
+                                                                    else None
+                                                                    else None
+                                                                    else None)
+                                                          a0)
+                                           else None
+                                      else None
+             else if b0
+                  then if b1
+                       then if b2
+                            then if b3
+                                 then None
+                                 else if b4
+                                      then if b5
+                                           then if b6
+                                                then None
+                                                else (match s2 with
+                                                      | [] -> None
+                                                      | a0::s3 ->
+                                                        (* If this appears, you're using Ascii internals. Please don't *)
+ (fun f c ->
+  let n = Char.code c in
+  let h i = (n land (1 lsl i)) <> 0 in
+  f (h 0) (h 1) (h 2) (h 3) (h 4) (h 5) (h 6) (h 7))
+                                                          (fun b7 b8 b9 b10 b11 b12 b13 b14 ->
+                                                          if b7
+                                                          then if b8
+                                                               then None
+                                                               else if b9
+                                                                    then 
+                                                                    if b10
+                                                                    then None
+                                                                    else 
+                                                                    if b11
+                                                                    then None
+                                                                    else 
+                                                                    if b12
+                                                                    then 
+                                                                    if b13
+                                                                    then 
+                                                                    if b14
+                                                                    then None
+                                                                    else 
+                                                                    (match s3 with
+                                                                    | [] ->
+                                                                    None
+                                                                    | a1::s4 ->
+                                                                    (* If this appears, you're using Ascii internals. Please don't *)
+ (fun f c ->
+  let n = Char.code c in
+  let h i = (n land (1 lsl i)) <> 0 in
+  f (h 0) (h 1) (h 2) (h 3) (h 4) (h 5) (h 6) (h 7))
+                                                                    (fun b15 b16 b17 b18 b19 b20 b21 b22 ->
+                                                                    if b15
+                                                                    then 
+                                                                    if b16
+                                                                    then 
+                                                                    if b17
+                                                                    then 
+                                                                    if b18
+                                                                    then None
+                                                                    else 
+                                                                    if b19
+                                                                    then 
+                                                                    if b20
+                                                                    then 
+                                                                    if b21
+                                                                    then 
+                                                                    if b22
+                                                                    then None
+                                                                    else 
+                                                                    (match s4 with
+                                                                    | [] ->
+                                                                    (match l0 with
+                                                                    | [] ->
+                                                                    None
+                                                                    | s5 :: l1 ->
+                                                                    (match s5 with
+                                                                    | SStr nm ->
+                                                                    (match l1 with
+                                                                    | [] ->
+                                                                    None
+                                                                    | p :: l2 ->
+                                                                    (match l2 with
+                                                                    | [] ->
+                                                                    (match 
+                                                                    d_optnat p with
+                                                                    | Some p' ->
+                                                                    Some
+                                                                    (HNew
+                                                                    (nm, p'))
+                                                                    | None ->
+                                                                    None)
+                                                                    | _ :: _ ->
+                                                                    None))
+                                                                    | _ ->
+                                                                    None))
+                                                                    | _::_ ->
+                                                                    None)
+                                                                    else None
+                                                                    else None
+                                                                    else None
+                                                                    else None
+                                                                    else None
+                                                                    else None)
+                                                                    a1)
+                                                                    else None
+                                                                    else None
+                                                                    else None
+                                                          else None)
+                                                          a0)
+                                           else None
+                                      else None
+                            else None
+                       else None
+                  else if b1
+                       then if b2
+                            then None
+                            else if b3
+                                 then None
+                                 else if b4
+                                      then if b5
+                                           then if b6
+                                                then None
+                                                else (match s2 with
+                                                      | [] -> None
+                                                      | a0::s3 ->
+                                                        (* If this appears, you're using Ascii internals. Please don't *)
+ (fun f c ->
+  let n = Char.code c in
+  let h i = (n land (1 lsl i)) <> 0 in
+  f (h 0) (h 1) (h 2) (h 3) (h 4) (h 5) (h 6) (h 7))
+                                                          (fun b7 b8 b9 b10 b11 b12 b13 b14 ->
+                                                          if b7
+                                                          then if b8
+                                                               then None
+                                                               else if b9
+                                                                    then 
+                                                                    if b10
+                                                                    then None
+                                                                    else 
+                                                                    if b11
+                                                                    then None
+                                                                    else 
+                                                                    if b12
+                                                                    then 
+                                                                    if b13
+                                                                    then 
+                                                                    if b14
+                                                                    then None
+                                                                    else 
+                                                                    (match s3 with
+                                                                    | [] ->
+                                                                    None
+                                                                    | a1::s4 ->
+                                                                    (* If this appears, you're using Ascii internals. Please don't *)
+ (fun f c ->
+  let n = Char.code c in
+  let h i = (n land (1 lsl i)) <> 0 in
+  f (h 0) (h 1) (h 2) (h 3) (h 4) (h 5) (h 6) (h 7))
+                                                                    (fun b15 b16 b17 b18 b19 b20 b21 b22 ->
+                                                                    if b15
+                                                                    then None
+                                                                    else 
+                                                                    if b16
+                                                                    then None
+                                                                    else 
+                                                                    if b17
+                                                                    then 
+                                                                    if b18
+                                                                    then 
+                                                                    if b19
+                                                                    then None
+                                                                    else 
+                                                                    if b20
+                                                                    then 
+                                                                    if b21
+                                                                    then 
+                                                                    if b22
+                                                                    then None
+                                                                    else 
+                                                                    (match s4 with
+                                                                    | [] ->
+                                                                    None
+                                                                    | a2::s5 ->
+                                                                    (* If this appears, you're using Ascii internals. Please don't *)
+ (fun f c ->
+  let n = Char.code c in
+  let h i = (n land (1 lsl i)) <> 0 in
+  f (h 0) (h 1) (h 2) (h 3) (h 4) (h 5) (h 6) (h 7))
+                                                                    (fun b23 b24 b25 b26 b27 b28 b29 b30 ->
+                                                                    if b23
+                                                                    then None
+                                                                    else 
+                                                                    if b24
+                                                                    then 
+                                                                    if b25
+                                                                    then None
+                                                                    else 
+                                                                    if b26
+                                                                    then None
+                                                                    else 
+                                                                    if b27
+                                                                    then 
+                                                                    if b28
+                                                                    then 
+                                                                    if b29
+                                                                    then 
+                                                                    if b30
+                                                                    then None
+                                                                    else 
+                                                                    (match s5 with
+                                                                    | [] ->
+                                                                    None
+                                                                    | a3::s6 ->
+                                                                    (* If this appears, you're using Ascii internals. Please don't *)
+ (fun f c ->
+  let n = Char.code c in
+  let h i = (n land (1 lsl i)) <> 0 in
+  f (h 0) (h 1) (h 2) (h 3) (h 4) (h 5) (h 6) (h 7))
+                                                                    (fun b31 b32 b33 b34 b35 b36 b37 b38 ->
+                                                                    if b31
+                                                                    then 
+                                                                    if b32
+                                                                    then None
+                                                                    else 
+                                                                    if b33
+                                                                    then 
+                                                                    if b34
+                                                                    then None
+                                                                    else 
+                                                                    if b35
+                                                                    then None
+                                                                    else 
+                                                                    if b36
+                                                                    then 
+                                                                    if b37
+                                                                    then 
+                                                                    if b38
+                                                                    then None
+                                                                    else 
+                                                                    (match s6 with
+                                                                    | [] ->
+                                                                    None
+                                                                    | a4::s7 ->
+                                                                    (* If this appears, you're using Ascii internals. Please don't *)
+ (fun f c ->
+  let n = Char.code c in
+  let h i = (n land (1 lsl i)) <> 0 in
+  f (h 0) (h 1) (h 2) (h 3) (h 4) (h 5) (h 6) (h 7))
+                                                                    (fun b39 b40 b41 b42 b43 b44 b45 b46 ->
+                                                                    if b39
+                                                                    then None
+                                                                    else 
+                                                                    if b40
+                                                                    then None
+                                                                    else 
+                                                                    if b41
+                                                                    then 
+                                                                    if b42
+                                                                    then 
+                                                                    if b43
+                                                                    then None
+                                                                    else 
+                                                                    if b44
+                                                                    then 
+                                                                    if b45
+                                                                    then 
+                                                                    if b46
+                                                                    then None
+                                                                    else 
+                                                                    (match s7 with
+                                                                    | [] ->
+                                                                    (match l0 with
+                                                                    | [] ->
+                                                                    None
+                                                                    | f :: l1 ->
+                                                                    (match l1 with
+                                                                    | [] ->
+                                                                    None
+                                                                    | k :: l2 ->
+                                                                    (match l2 with
+                                                                    | [] ->
+                                                                    (match 
+                                                                    d_nat f with
+                                                                    | Some f' ->
+                                                                    (match 
+                                                                    d_nat k with
+                                                                    | Some k' ->
+                                                                    Some
+                                                                    (HDelRel
+                                                                    (f', k'))
+                                                                    | None ->
+                                                                    None)
+                                                                    | None ->
+                                                                    None)
+                                                                    | _ :: _ ->
+                                                                    None)))
+                                                                    | _::_ ->
+                                                                    None)
+                                                                    else None
+                                                                    else None
+                                                                    else None
+                                                                    else None)
+                                                                    a4)
+                                                                    else None
+                                                                    else None
+                                                                    else None
+                                                                    else None)
+                                                                    a3)
+                                                                    else None
+                                                                    else None
+                                                                    else None
+                                                                    else None)
+                                                                    a2)
+                                                                    else None
+                                                                    else None
+                                                                    else None
+                                                                    else None)
+                                                                    a1)
+                                                                    else None
+                                                                    else None
+                                                                    else None
+                                                          else None)
+                                                          a0)
+                                           else None
+                                      else None
+                       else None)
+             a)
+      | _ -> None))
+| _ -> None
+
+(** val e_hrel : hrel -> sexp **)
+
+let e_hrel r =
+  e_tag ('r'::[])
+    ((e_nat r.hr_owner) :: ((e_z r.hr_min) :: ((e_z r.hr_max) :: ((e_list
+                                                                    e_nat
+                                                                    r.hr_children) :: []))))
+
+(** val e_heap : heap -> sexp **)
+
+let e_heap h =
+  SList
+    (map (fun i ->
+      e_tag ('f'::[]) ((SStr
+        (h_name h i)) :: ((e_opt e_nat (h_parent h i)) :: ((e_list e_hrel
+                                                             (h_rels h i)) :: (
+        (e_list e_nat (h_children h i)) :: ((e_bool (h_is_root h i)) :: (
+        (e_bool (h_is_leaf h i)) :: ((e_bool (h_is_mandatory h i)) :: (
+        (e_bool (h_is_optional h i)) :: []))))))))) (seq O (length h)))
+
 (** val e_names : feature list -> sexp **)
 
 let e_names l =
@@ -12153,6 +13710,41 @@ let dispatch = function
                                                                     | _ ->
                                                                     bad
                                                                     ('a'::('r'::('i'::('t'::('y'::[])))))))))
+                                                                    | _ ->
+                                                                    bad
+                                                                    ('a'::('r'::('i'::('t'::('y'::[])))))))
+                                                                    else 
+                                                                    if 
+                                                                    eqb0 op
+                                                                    ('h'::('e'::('a'::('p'::('_'::('r'::('u'::('n'::[]))))))))
+                                                                    then 
+                                                                    (match args with
+                                                                    | [] ->
+                                                                    bad
+                                                                    ('a'::('r'::('i'::('t'::('y'::[])))))
+                                                                    | s0 :: l0 ->
+                                                                    (match s0 with
+                                                                    | SList ops ->
+                                                                    (match l0 with
+                                                                    | [] ->
+                                                                    (match 
+                                                                    omap
+                                                                    d_hop ops with
+                                                                    | Some ops' ->
+                                                                    e_tag
+                                                                    ('h'::('e'::('a'::('p'::[]))))
+                                                                    ((e_bool
+                                                                    (guards
+                                                                    [] ops')) :: (
+                                                                    (e_heap
+                                                                    (run []
+                                                                    ops')) :: []))
+                                                                    | None ->
+                                                                    bad
+                                                                    ('h'::('o'::('p'::[]))))
+                                                                    | _ :: _ ->
+                                                                    bad
+                                                                    ('a'::('r'::('i'::('t'::('y'::[]))))))
                                                                     | _ ->
                                                                     bad
                                                                     ('a'::('r'::('i'::('t'::('y'::[])))))))
